@@ -161,7 +161,14 @@ func (b *verifC44Backend) DownloadSegment(ctx context.Context, key string, rng *
 	if err := b.readGate(ctx, key); err != nil {
 		return nil, err
 	}
-	return b.inner.DownloadSegment(ctx, key, rng)
+	data, err := b.inner.DownloadSegment(ctx, key, rng)
+	if err != nil {
+		// like the AWS client (NoSuchKey -> storage.ErrNotFound): a missing object is classified, a bad range is not
+		if _, e2 := b.inner.DownloadSegment(ctx, key, nil); e2 != nil {
+			return nil, fmt.Errorf("get object %s: %w", key, storage.ErrNotFound)
+		}
+	}
+	return data, err
 }
 func (b *verifC44Backend) DownloadIndex(ctx context.Context, key string) ([]byte, error) {
 	b.note("DownloadIndex")
@@ -230,6 +237,18 @@ func verifC44Res(d []byte, err error) string {
 		return "ok -"
 	}
 	return "ok " + hex.EncodeToString(d)
+}
+
+// verifC44Class is the error CLASS callers of an S3Client branch on (PartitionLog.RestoreFromS3 skips a segment as
+// orphaned exactly when errors.Is(err, storage.ErrNotFound)): "-" no error, "nf" not found, "other" anything else.
+func verifC44Class(err error) string {
+	switch {
+	case err == nil:
+		return "-"
+	case errors.Is(err, storage.ErrNotFound):
+		return "nf"
+	}
+	return "other"
 }
 
 // verifC44OrphanScenario replays, on the real PartitionLog over the real dual client, the history
@@ -379,6 +398,28 @@ func verifC44RestoreScenario() string {
 	b1, b2 := attempt(), attempt()
 	pri.opFault["ListSegments"] = 0
 	c := attempt()
+	// the replica lags on the INDEX of the second segment (not found there) and the primary's read of that index fails
+	// transiently in the same restore: the primary alone reports the error (pd1); through the dual client the restore must
+	// not treat the segment as an orphan (d1 = err or want); after the fault cleared the retry restores everything (d2)
+	idx2 := "ns/orders/0/segment-00000000000000000005.index"
+	if _, e := pri.inner.DownloadIndex(ctx, idx2); e != nil {
+		return "restore setup=second-index-missing"
+	}
+	_, e0 := rep.inner.DownloadIndex(ctx, idx2)
+	repcls := verifC44Class(e0)
+	pri.failing[idx2] = true
+	pd1 := func() string {
+		last, err := newLog(pri).RestoreFromS3(ctx)
+		if err != nil {
+			return "err"
+		}
+		return strconv.FormatInt(last, 10)
+	}()
+	_, e1 := newDualS3Client(pri, rep).DownloadIndex(ctx, idx2)
+	_, e2 := pri.DownloadIndex(ctx, idx2)
+	d1 := attempt()
+	pri.failing[idx2] = false
+	d2 := attempt()
 	var rbad []string
 	for _, cl := range calls {
 		if strings.HasPrefix(cl, "r.") && cl != "r.DownloadSegment" && cl != "r.DownloadIndex" {
@@ -389,26 +430,38 @@ func verifC44RestoreScenario() string {
 	if len(rbad) > 0 {
 		rb = strings.Join(rbad, ",")
 	}
-	return fmt.Sprintf("restore want=%d replica=%d a1=%s a2=%s b1=%s b2=%s c=%s rbad=%s", want, replicaAlone, a1, a2, b1, b2, c, rb)
+	return fmt.Sprintf("restore want=%d replica=%d a1=%s a2=%s b1=%s b2=%s c=%s rbad=%s repcls=%s d1=%s pd1=%s d2=%s dcls=%s pcls=%s",
+		want, replicaAlone, a1, a2, b1, b2, c, rb, repcls, d1, pd1, d2, verifC44Class(e1), verifC44Class(e2))
 }
 
-// verifC44SlowScenario: four reads run concurrently against replicas that are slow to fail / slow to
-// answer (2.5 s — longer than any plausible replica timeout), under a caller context of 20 s.  Each
-// result is printed next to what the primary alone answers.
-func verifC44SlowScenario() string {
+// verifC44SlowScenario: for every stall duration (ms) four reads run concurrently — all of them at once, each on its own
+// dual client — against replicas that are slow to fail / hang then fail / are slow to answer an equal copy, under a caller
+// context of 30 s.  The stalls straddle any plausible replica-side timeout (default list 50 ms, 2.5 s, 6 s, 12 s), so
+// whether or not the dual client bounds the replica read, whenever the replica does not deliver the caller must get what
+// the primary holds.  Each result is printed next to what the primary alone answers: `<kind><ms>=<dual>/<primary>`.
+func verifC44SlowScenario(stalls []int) string {
 	bg := context.Background()
 	type rd struct {
 		name string
 		kind string // seg | idx
 		rng  *storage.ByteRange
-		mode verifC44Mode
+		mode string
 		copy bool // replica holds an equal copy
 	}
-	reads := []rd{
-		{"a", "seg", &storage.ByteRange{Start: 1, End: 5}, verifC44Mode{"slowfail", 2500}, false},
-		{"b", "idx", nil, verifC44Mode{"slowfail", 2500}, true},
-		{"c", "seg", nil, verifC44Mode{"hang", 2500}, false},
-		{"d", "seg", &storage.ByteRange{Start: 0, End: 2}, verifC44Mode{"slowok", 2500}, true},
+	kinds := []rd{
+		{"a", "seg", &storage.ByteRange{Start: 1, End: 5}, "slowfail", false},
+		{"b", "idx", nil, "slowfail", true},
+		{"c", "seg", nil, "hang", false},
+		{"d", "seg", &storage.ByteRange{Start: 0, End: 2}, "slowok", true},
+	}
+	var reads []rd
+	var ms []int
+	for _, st := range stalls {
+		for _, k := range kinds {
+			k.name = k.name + strconv.Itoa(st)
+			reads = append(reads, k)
+			ms = append(ms, st)
+		}
 	}
 	out := make([]string, len(reads))
 	var wg sync.WaitGroup
@@ -425,15 +478,16 @@ func verifC44SlowScenario() string {
 			rep := &verifC44Backend{tag: "r", inner: storage.NewMemoryS3Client(), failing: map[string]bool{}, mode: map[string]verifC44Mode{}}
 			dual := newDualS3Client(pri, rep)
 			body := []byte{byte(0x10 + i), 2, 3, 4, 5, 6, 7, 8}
-			sk, ik := verifC44SegKey(i), verifC44IdxKey(i)
+			sk, ik := verifC44SegKey(i%64), verifC44IdxKey(i%64)
 			_ = pri.inner.UploadSegment(bg, sk, body)
 			_ = pri.inner.UploadIndex(bg, ik, body[:4])
 			if r.copy {
 				_ = rep.inner.UploadSegment(bg, sk, body)
 				_ = rep.inner.UploadIndex(bg, ik, body[:4])
 			}
-			rep.mode[sk], rep.mode[ik] = r.mode, r.mode
-			ctx, cancel := context.WithTimeout(bg, 20*time.Second)
+			m := verifC44Mode{r.mode, ms[i]}
+			rep.mode[sk], rep.mode[ik] = m, m
+			ctx, cancel := context.WithTimeout(bg, 30*time.Second)
 			defer cancel()
 			var got, want string
 			if r.kind == "seg" {
@@ -522,7 +576,19 @@ func init() {
 			case "scenario":
 				return verifC44OrphanScenario()
 			case "slow":
-				return verifC44SlowScenario()
+				// slow [ms,ms,...]
+				stalls := []int{50, 2500, 6000, 12000}
+				if len(f) == 2 {
+					stalls = nil
+					for _, x := range strings.Split(f[1], ",") {
+						v, err := strconv.Atoi(x)
+						if err != nil || v < 0 || v > 25000 {
+							return "bad-op"
+						}
+						stalls = append(stalls, v)
+					}
+				}
+				return verifC44SlowScenario(stalls)
 			case "restore":
 				return verifC44RestoreScenario()
 			case "popfail", "ropfail":
@@ -711,21 +777,25 @@ func init() {
 					rng = &storage.ByteRange{Start: a, End: b}
 				}
 				cctx, cancel := context.WithTimeout(ctx, 20*time.Second)
-				res := verifC44Res(dual.DownloadSegment(cctx, verifC44SegKey(k), rng))
+				dd, derr := dual.DownloadSegment(cctx, verifC44SegKey(k), rng)
+				res := verifC44Res(dd, derr)
 				cancel()
 				res = withCalls(res)
-				p := verifC44Res(quiet(pri).DownloadSegment(ctx, verifC44SegKey(k), rng))
-				return res + " pri=" + strings.ReplaceAll(p, " ", ":")
+				pd, perr := quiet(pri).DownloadSegment(ctx, verifC44SegKey(k), rng)
+				p := verifC44Res(pd, perr)
+				return res + " pri=" + strings.ReplaceAll(p, " ", ":") + " cls=" + verifC44Class(derr) + " pcls=" + verifC44Class(perr)
 			case "rdidx":
 				k, ok1 := key(1)
 				if !ok1 || len(f) != 2 {
 					return "bad-op"
 				}
 				cctx, cancel := context.WithTimeout(ctx, 20*time.Second)
-				res := withCalls(verifC44Res(dual.DownloadIndex(cctx, verifC44IdxKey(k))))
+				dd, derr := dual.DownloadIndex(cctx, verifC44IdxKey(k))
+				res := withCalls(verifC44Res(dd, derr))
 				cancel()
-				p := verifC44Res(quiet(pri).DownloadIndex(ctx, verifC44IdxKey(k)))
-				return res + " pri=" + strings.ReplaceAll(p, " ", ":")
+				pd, perr := quiet(pri).DownloadIndex(ctx, verifC44IdxKey(k))
+				p := verifC44Res(pd, perr)
+				return res + " pri=" + strings.ReplaceAll(p, " ", ":") + " cls=" + verifC44Class(derr) + " pcls=" + verifC44Class(perr)
 			case "list":
 				objs, err := dual.ListSegments(ctx, "ns/")
 				if err != nil {
